@@ -41,10 +41,11 @@ theorem catRows_spec (tbl : List (Bytes × Int)) (c : Chunk) (rest : List Bytes)
 
 theorem categoricalTransform_packTable (tbl : List (Bytes × Int)) (c : Chunk) (cells : List Bytes)
     (h : Encodes c cells) : categoricalTransform (packTable tbl) c = .ok (cells.map (scanCode tbl)) := by
-  obtain ⟨hr, s0, he, _⟩ := h
+  obtain ⟨hr, ⟨s0, he, _⟩, hcol⟩ := h
   have hlt := he.lt_inds
   have := catRows_spec tbl c cells 0 s0 (c.inds.length - 1) [] he (by omega) rfl
-  simpa [categoricalTransform, hr] using this
+  rw [categoricalTransform, withCol_ok c _ _ _ hcol]
+  simpa [hr] using this
 
 /-! ### `lastMatch` on a table with pairwise different keys is the whole-cell lookup, in any order -/
 
